@@ -58,6 +58,10 @@ fn env_budget() -> usize {
 }
 
 fn template_arg(rng: &mut Rng) -> Vec<u8> {
+    if rng.chance(1, 12) {
+        // (a word that find itself would understand is just an argument of the command)
+        return rng.pick(&["--help", "--version", "-help", "-version", "-print", "-o", "(", ")", "!", "-exec"]).as_bytes().to_vec();
+    }
     let pieces: [&str; 12] = ["{}", "{}", "x", "-n", "{", "}", " ", "{}{}", "a b", "'", "\\", "é"];
     let n = rng.range(1, 4);
     let mut s = String::new();
@@ -182,7 +186,7 @@ pub fn run_c09(ctx: &Ctx, sink: &mut Sink) {
 }
 
 /// many long paths under a small stack limit: several batches, each must be accepted by the kernel
-fn run_big(ctx: &Ctx, sink: &mut Sink, rng: &mut Rng, stack: u64, nfiles: usize, namelen: usize, dir: bool) {
+fn run_big(ctx: &Ctx, sink: &mut Sink, rng: &mut Rng, stack: u64, nfiles: usize, namelen: usize, dir: bool, script: &[u32], tail: bool) {
     use std::os::unix::process::CommandExt;
     let scene = ctx.scratch("big");
     let root = scene.join("r");
@@ -197,12 +201,18 @@ fn run_big(ctx: &Ctx, sink: &mut Sink, rng: &mut Rng, stack: u64, nfiles: usize,
     let log = scene.join("log");
     let fixed: Vec<Vec<u8>> = vec![b"--".to_vec()];
     let tok = format!("execm:0:{}:1:{}:{}", dir as u8, hex(rec.as_os_str().as_bytes()), hexjoin(&fixed));
-    let toks = vec!["sorted".to_string(), tok];
+    let mut toks = vec!["sorted".to_string(), tok];
+    // the action is always true, also for the path that opens the next command line after a failed one:
+    // what follows `-o` must never be evaluated
+    if tail { toks.push("o".into()); toks.push(format!("lit:{}", hex(b"F\n"))); }
     let mut cmd = std::process::Command::new(ctx.bin("find"));
     cmd.arg("r").args(exec_argv(&toks, rng)).current_dir(&scene);
     cmd.env_clear();
     cmd.env("FU_REC_LOG", &log).env("FU_REC_COMPACT", "1");
-    let env_size: usize = [("FU_REC_LOG", log.to_str().unwrap()), ("FU_REC_COMPACT", "1")].iter().map(|(k, v)| 8 + k.len() + 1 + v.len() + 1).sum();
+    let script_s: String = script.iter().map(|x| x.to_string()).collect::<Vec<_>>().join(",");
+    let mut envs: Vec<(&str, &str)> = vec![("FU_REC_LOG", log.to_str().unwrap()), ("FU_REC_COMPACT", "1")];
+    if !script.is_empty() { cmd.env("FU_REC_SCRIPT", &script_s); envs.push(("FU_REC_SCRIPT", &script_s)); }
+    let env_size: usize = envs.iter().map(|(k, v)| 8 + k.len() + 1 + v.len() + 1).sum();
     unsafe {
         cmd.pre_exec(move || {
             let lim = libc::rlimit { rlim_cur: stack as libc::rlim_t, rlim_max: stack as libc::rlim_t };
@@ -221,8 +231,8 @@ fn run_big(ctx: &Ctx, sink: &mut Sink, rng: &mut Rng, stack: u64, nfiles: usize,
         if c == base { hex(b".") } else if c.starts_with(&base) && c.get(base.len()) == Some(&b'/') { hex(&c[base.len() + 1..]) } else { hex(&c) }
     };
     let inv: Vec<String> = text.lines().filter(|l| l.starts_with("C ")).map(|l| { let f: Vec<&str> = l.split(' ').collect(); format!("{}:{}:{}:{}:{}", f[1], f[2], f[3], f[4], rel(f.get(5).copied().unwrap_or("-"))) }).collect();
-    let imp = format!("st={} inv={}", o.status.code().unwrap_or(999), if inv.is_empty() { ".".into() } else { inv.join(";") });
-    let req = format!("findxc P {world} {} . {}", toks.join(","), arg_max - env_size);
+    let imp = format!("st={} inv={} outlen={}", o.status.code().unwrap_or(999), if inv.is_empty() { ".".into() } else { inv.join(";") }, o.stdout.len());
+    let req = format!("findxc P {world} {} {} {}", toks.join(","), if script.is_empty() { ".".to_string() } else { script_s.clone() }, arg_max - env_size);
     let mut tags = vec!["big", "nt"];
     if inv.len() >= 2 { tags.push("several-batches"); }
     if dir { tags.push("execdir"); }
@@ -238,8 +248,11 @@ pub fn run_c08(ctx: &Ctx, sink: &mut Sink) {
         vec![(256 << 10, 1500, 150, false), (512 << 10, 1200, 200, true)]
     };
     for (stack, n, len, dir) in bigs {
-        run_big(ctx, sink, &mut rng, stack, n, len, dir);
+        run_big(ctx, sink, &mut rng, stack, n, len, dir, &[], false);
     }
+    // several command lines of which some fail (also killed by a signal), with something after the action
+    run_big(ctx, sink, &mut rng, 256 << 10, 1500, 150, false, &[1, 0, 3, 1009, 1, 1, 1, 1], true);
+    run_big(ctx, sink, &mut rng, 256 << 10, 900, 200, true, &[2, 2, 2, 2, 2, 2], true);
     let rec = ctx.recorder().as_os_str().as_bytes().to_vec();
     // the starting point "/" has no parent directory: its -execdir batch is dispatched by finished()
     {
